@@ -194,6 +194,15 @@ where
     fn update_A(&mut self, A: &CscMatrix<T>) {
         _update_values(&mut self.ldlsolver, &mut self.KKT, &self.map.A, &A.nzval);
     }
+
+    #[cfg(clarabel_verif)]
+    fn verif_view(&self) -> Option<crate::verif::KKTView> {
+        let mut v = crate::verif::kkt_view_of(&self.KKT, &self.map, self.n, self.m);
+        v.dsigns = self.dsigns.clone();
+        v.hsblocks = crate::verif::vec_of(&self.Hsblocks);
+        v.diagonal_regularizer = crate::verif::f64_of(self.diagonal_regularizer);
+        Some(v)
+    }
 }
 
 impl<T> DirectLDLKKTSolver<T>
